@@ -113,3 +113,17 @@ def run(repo, res, tier):
     except ImportError:
         res.notes.append("T3 (ORIGIN) not available")
     return extra
+
+
+MANIFEST = {
+    "category": "other",
+    "text": "Static decision of the exception-safety and non-mutation clauses: for every function reachable from getBH_level2/getBH_dict_level2 "
+            "(call graph over the parsed package) each temporary overwrite of object state is shown restored on every exit including the "
+            "exceptional edge of every call (T1), no other write to pre-existing object state is reachable (T2), and no caller-owned array "
+            "reaches an in-place sink without a copy (T3). This covers every failure point at once, which sampled failing calls cannot; it "
+            "does not decide numerical repeatability.",
+    "design_ref": "DESIGN.md §3 C08",
+    "note": "Trusted: python ast; name-based call graph (over-approximate, ambiguity rule stated in evidence); NumPy copy/view table; "
+            "triaged lazy style initialisation and Sensor(pixel=...) construction.",
+    "technique": "static analysis: structured control-flow with exceptional edges (swap-restore typestate), call-graph who-may-write, alias/escape analysis",
+}
